@@ -69,7 +69,7 @@ fetched again, through every link — and, as in `Load`, only the entries of thi
 controller and the signature check accept are kept (F47); the
 largest clock is taken over the entries of THAT log (not over every record of the file), the maximum
 is raised, the log is joined, the view refreshed and the status brought up to date (C19). -/
-def loadSnapshot : List String := ["rebuild", "ownlog", "canappend", "verify", "count", "max", "join", "index", "status"]
+def loadSnapshot : List String := ["rebuild", "ownlog", "held", "canappend", "verify", "count", "max", "join", "index", "status"]
 
 /-- `oneonone.Connect` (`Connect.connectLocked`): the look-up of the peer, the `Subscribe` and the insert
 happen under one hold of `muSubs` (the first `Unlock` in the text is the error path after `Subscribe`) -/
